@@ -122,13 +122,26 @@ extern "C" int __wrap_debug_message(const char *fmt, ...) {
   char *msg = &store[0];
   if (msg[0] == '@' && msg[1] == 'R' && msg[2] == ' ') {
     ev("R %s", msg + 3); S.stats["rec"]++;
+    // a deterministic bound on what one run may report (an evaluation that never ends but spends its time in error reports)
+    if (S.max_rec > 0 && ++S.rec_total > S.max_rec) { ev("HANG records"); ev_flush(); _exit(75); }
     if (!strncmp(msg + 3, "WALK", 4)) sim_walk_now();   // structure walk requested from LPC (possibly in the middle of a hook)
     if (!strncmp(msg + 3, "MEMSTAT", 7)) sim_memstat();  // C06: driver allocation counters right now
     return 0;
   }
   for (char *p = msg; *p; p++) if (*p == '\n' || *p == '\r') *p = ' ';
   ev("D %s", msg);
+  if (S.max_rec > 0 && ++S.rec_total > S.max_rec) { ev("HANG records"); ev_flush(); _exit(75); }
   return 0;
+}
+// the driver's console log (error traces): kept for the first lines of a run only - a run that raises hundreds of thousands
+// of errors must reach its instruction budget, not the wall clock
+extern "C" int __real_log_message(const char *file, const char *fmt, ...);
+extern "C" int __wrap_log_message(const char *file, const char *fmt, ...) {
+  static long n = 0;
+  if (!file && ++n > 3000) return 0;
+  char msg[8192];
+  va_list ap; va_start(ap, fmt); vsnprintf(msg, sizeof msg, fmt, ap); va_end(ap);
+  return __real_log_message(file, "%s", msg);
 }
 extern "C" int __wrap_debug_message_with_src(const char *type, const char *func, const char *src, int line, const char *fmt, ...) {
   char msg[8192];
@@ -136,6 +149,7 @@ extern "C" int __wrap_debug_message_with_src(const char *type, const char *func,
   va_list ap; va_start(ap, fmt); vsnprintf(msg, sizeof msg, fmt, ap); va_end(ap);
   for (char *p = msg; *p; p++) if (*p == '\n' || *p == '\r') *p = ' ';
   ev("D [%s %s] %s", type, func, msg);
+  if (S.max_rec > 0 && ++S.rec_total > S.max_rec) { ev("HANG records"); ev_flush(); _exit(75); }
   return 0;
 }
 extern "C" int __wrap_debug_perror_with_src(const char *func, const char *src, int line, const char *what, const char *file) {
@@ -196,6 +210,22 @@ static void c04_check() {
     }
   }
 }
+// one evaluation = one span in which the control stack is never empty.  Its first instruction runs in control_stack[0] with
+// a budget the backend has just reset; everything executed until the next such instruction belongs to it.  It may use the
+// configured cost once, plus one refill for every "Too long evaluation" the interpreter raises in it (the refill is what lets
+// the master's error handler report that error; handlers that fail in turn can raise it again).  A budget that rises in
+// the middle of an evaluation without that error having been raised does not extend what the evaluation may use.
+static void c04_evaluation_length() {
+  static int64_t prev_cost = 0; static long n = 0, allowed = 0;
+  if (eval_cost >= prev_cost) {
+    // (the callback of input_to()/get_char() starts one frame up, with the full budget)
+    if (csp == control_stack || (csp == control_stack + 1 && eval_cost == CONFIG_INT(__MAX_EVAL_COST__) - 1)) { n = 0; allowed = CONFIG_INT(__MAX_EVAL_COST__); }
+    else if (get_error_state(ES_MAX_EVAL_COST)) { allowed += CONFIG_INT(__MAX_EVAL_COST__); S.stats["c04_limit_refills"]++; }
+    else { S.stats["c04_budget_rose_mid_evaluation"]++; if (getenv("C04_DEBUG_RISE")) ev("rise depth=%ld prev=%ld now=%ld prog=%s es=%d", (long)(csp - control_stack), (long)prev_cost, (long)eval_cost, current_prog && current_prog->name ? current_prog->name : "?", get_error_state(~0)); }
+  }
+  n++; prev_cost = eval_cost;
+  if (n > allowed + 1000) { c04_reported = 0; c04_report("evaluation", n, allowed); ev("HANG evaluation"); ev_flush(); _exit(75); }
+}
 static void instr_hook(int instruction) {
   (void)instruction;
   S.instr_total++;
@@ -203,7 +233,7 @@ static void instr_hook(int instruction) {
   if (S.vns_frac >= 1000) { S.vus += S.vns_frac / 1000; S.vns_frac %= 1000; }
   if (S.instr_total > S.max_instr) { ev("HANG instructions"); ev_flush(); _exit(75); }
   if (S.elig_on && !prog_exempt(current_prog)) S.elig_total++;
-  if (c04_monitor) c04_check();
+  if (c04_monitor) { c04_check(); c04_evaluation_length(); }
   if (S.timer_countdown >= 0 && S.timer_countdown-- == 0) {
     S.timer_countdown = -1;
     S.vus += S.timer_dt;
@@ -472,6 +502,7 @@ int sim_main_run(const Plan &plan, int life, bool last_life, long gap_s) {
   S.plan = plan;
   S.instr_cost_ns = plan.optl("instr_cost_ns", 100);
   S.max_instr = plan.optl("max_instr", 50000000);
+  S.max_rec = plan.optl("max_rec", 0);
   S.max_cycles = plan.optl("max_cycles", 200000);
   S.console_mode = plan.optl("console", 0) != 0;
   S.stdin_tty = plan.optl("tty", 1) != 0;
